@@ -391,8 +391,9 @@ ValueChainLevels(T, R, x) ==
 (* Final position of every item = position of its LAST occurrence in        *)
 (*   object part ++ value chain of 1st changed input ++ value chain of 2nd… *)
 (* (optimize_attr_updates_chain keeps the last occurrence of each id).      *)
-(* Canonical = TRUE models the repaired merge: when both parts are present, *)
-(* the merged chain is re-sorted in canonical order.                        *)
+(* Canonical = TRUE models the repaired merge: when more than one chain is  *)
+(* merged (object part + a value chain, or several value chains) the merged *)
+(* chain is re-sorted in canonical order.                                   *)
 ChainPositions(T, changes, jfn, Canonical) ==
     LET R == ReadsMap(T)
         objs == ObjChain(T, changes, jfn)
@@ -402,7 +403,7 @@ ChainPositions(T, changes, jfn, Canonical) ==
         allItems == objItems \cup UNION {DOMAIN vlev[i] : i \in inputIdx}
         lastPart(it) == IF \E i \in inputIdx : it \in DOMAIN vlev[i]
                         THEN Max({i \in inputIdx : it \in DOMAIN vlev[i]}) ELSE 0
-        pos(it) == IF Canonical /\ objs # {} /\ inputIdx # {}
+        pos(it) == IF Canonical /\ ((objs # {} /\ inputIdx # {}) \/ Cardinality(inputIdx) >= 2)
                    THEN ObjPartPos(T, it[1], it[2])
                    ELSE IF lastPart(it) = 0 THEN ObjPartPos(T, it[1], it[2])
                         ELSE lastPart(it) * 10000 + vlev[lastPart(it)][it]
